@@ -12,7 +12,8 @@ LEVEL = ("Static structural conditions: leapfrog stage order by field effects (h
          "recomputes logdet and bumps the id on all paths (R5); initialize_trajectory re-whitens exactly when the id changed (R7). "
          "O(eps^2) energy error, volume preservation and exact conservation are numerical and not decided."
          " Added: the CPU backend carries no state between kernel calls except listed scratch buffers and identity-keyed memos (R8)."
-         " Added (round 5): one leapfrog per kinetic-energy kind, path-sensitive on the kind - kinetic energy recomputed for Euclidean / ExactNormal, sibling half-steps read the same fields (R11); no two same-typed values handed down in each other's named position (R12, positive control); the ESH half-steps are the unclamped closed form (R13 = C18-R1 analysis).")
+         " Added (round 5): one leapfrog per kinetic-energy kind, path-sensitive on the kind - kinetic energy recomputed for Euclidean / ExactNormal, sibling half-steps read the same fields (R11); no two same-typed values handed down in each other's named position (R12, positive control); the ESH half-steps are the unclamped closed form (R13 = C18-R1 analysis)."
+         " Added (round 6): the Transformation entry points go through position map, density and gradient map on every path to their return (R4); the CPU backend hands scalars to the kernels unmodified (R14 = C17-K13).")
 EXPLANATION = "EFF field-effect summaries through helper functions (from the &/&mut signatures of the Math trait), dominance, path enumeration of the small transform functions, monomial normalisation of scalar arguments."
 TRUSTED = ["rustc nightly MIR", "nutsfacts extractor", "rules/eff.py, rules/c02.py", "Math trait contract: &mut Vector parameters are outputs, & Vector parameters inputs"]
 TECHNIQUE = "static analysis: field-effect summaries (EFF) + dominance + operation-sequence mirror comparison"
@@ -358,8 +359,20 @@ def r3_r4(F, R):
                 key = "%s:entry" % tb.path
                 tsite = "%s @%s" % (tb.path, tb.loc())
                 dom = all(tb.dominates(blocks[i], blocks[i + 1]) for i in range(len(blocks) - 1))
+                # every path: no return without the first stage, and none that leaves the sequence early other than on the density's `?`
+                rets = {x for x, blk in enumerate(tb.blocks) if blk["term"]["k"] == "return"}
+                skipped = None
                 if seq == expect and dom:
-                    R.ok("C02-R4", key, tsite, " -> ".join(seq))
+                    if rets & tb.reach_from(0, avoid=(blocks[0],)):
+                        skipped = seq[0]
+                    for i in range(1, len(blocks)):
+                        if seq[i - 1] != "logp_array" and rets & tb.reach_from(blocks[i - 1], avoid=(blocks[i],)):
+                            skipped = skipped or seq[i]
+                if skipped:
+                    R.bad("C02-R4", key, tsite, "%s has a path to its return that does not go through %s (a short cut that answers from other data than the "
+                          "position / gradient maps R3 and R4 pair up)" % (name, skipped))
+                elif seq == expect and dom:
+                    R.ok("C02-R4", key, tsite, " -> ".join(seq) + " on every path")
                 else:
                     R.bad("C02-R4", key, tsite, "%s calls %s, expected %s in this order" % (name, seq, expect))
     R.floor("C02-R3", 3)
@@ -697,6 +710,8 @@ def run(F, R, config="all"):
     # the integrator maps are functions of their arguments only if the backend carries nothing from one kernel call to the next
     from . import c17
     c17.stateless_backend(F, R, rid="C02-R8")
+    # ... and the step size the integrator passes down is the one the kernel applies
+    c17.forwarded_scalars(F, R, rid="C02-R14")
     # energy error O(eps^2): the baseline must be taken after the point is complete (logdet refreshed)
     from . import c03
     c03.snapshot(F, R, "C02-R9")
